@@ -12,11 +12,12 @@
   capacity) and no write lands outside the line or history buffers, including
   for the bulk-insert and NUL-terminating accessors."
 
-  Model: IgrisModel/C15/Model.lean (the code after the five `fix:` commits of
+  Model: IgrisModel/C15/Model.lean (the code after the eight `fix:` commits of
   branch fix-C15).  Reference: IgrisModel/C15/Spec.lean (a zipper with a
   capacity, a list of remembered lines, a key decoder).
 -/
-import IgrisModel.C15.Lemmas6
+import IgrisModel.C15.Lemmas9
+import IgrisModel.C15.Lemmas10
 namespace Igris.C15
 open Igris.Proto
 
@@ -73,33 +74,34 @@ theorem sline_returns (cap : Nat) (hcap : 1 ≤ cap) (ops : List SOp) (o : SOp) 
 
 `cxx = false` is `vterm_automate_newdata` (vterm.c), `cxx = true` is
 `igris::vtermxx::newdata` (returns right after the execute callback; the line
-is reset and the prompt printed at the start of the next call).  History depth
-`1 ≤ depth ≤ 255` (`uint8_t history_size`). -/
+is reset and the prompt printed at the start of the next call).  EVERY history
+depth ≥ 1 (the ring indices are `unsigned int` since fix a01b0b4; with the
+original `uint8_t` fields depth 256 divided by zero, see corpus/C15/fixed.ops). -/
 
 /-- Bounds and memory safety of the whole terminal, for EVERY byte sequence,
-capacity ≥ 1, history depth 1..255, both variants, any prompt:
+capacity ≥ 1, every history depth ≥ 1, both variants, any prompt:
 `0 ≤ cursor ≤ length < capacity`; the history indices stay inside the ring
 (`headhist < depth`, `curhist ≤ depth`); and no store / memmove / memcpy /
 memset / strlen of the edit buffer or of history_space left its object
 (`faulted = false`: every access of the model is index-checked against the
 exactly sized buffer, including the terminator written by `sline_getline` for
 the execute callback and the `memcpy + '\0'` of the history push). -/
-theorem vterm_safe (cap depth : Nat) (hcap : 1 ≤ cap) (hd : 1 ≤ depth) (hd2 : depth ≤ 255) (cxx : Bool)
+theorem vterm_safe (cap depth : Nat) (hcap : 1 ≤ cap) (hd : 1 ≤ depth) (cxx : Bool)
     (prompt : List Byte) (keys : List Byte) :
     let v := (Vterm.init cap depth cxx prompt).run keys
     v.rl.faulted = false ∧ v.rl.line.cursor ≤ v.rl.line.len ∧ v.rl.line.len < cap ∧
     v.rl.line.buf.length = cap ∧ v.rl.hist.length = cap * depth ∧ v.rl.headhist < depth ∧ v.rl.curhist ≤ depth := by
-  exact safe_of_sim cap depth _ _ (run_sim cap depth hd hd2 _ _ keys (init_sim cap depth hcap hd hd2 cxx prompt))
+  exact safe_of_sim cap depth _ _ (run_sim cap depth hd _ _ keys (init_sim cap depth hcap hd cxx prompt))
 
 /-- THE LINE HANDED TO EXECUTE.  For every byte sequence typed at the terminal
 (any bytes: printable, BS, ESC-[ arrows, ESC-[-3-~, CR/LF in any pairing,
 Ctrl-C, unknown escapes, anything else), the sequence of callback events —
 every `execute(line)` with its line, every SIGINT, in order — is exactly the
 sequence the reference editor produces. -/
-theorem readline_line (cap depth : Nat) (hcap : 1 ≤ cap) (hd : 1 ≤ depth) (hd2 : depth ≤ 255) (cxx : Bool)
+theorem readline_line (cap depth : Nat) (hcap : 1 ≤ cap) (hd : 1 ≤ depth) (cxx : Bool)
     (prompt : List Byte) (keys : List Byte) :
     (Vterm.init cap depth cxx prompt).events keys = (Ref.init depth).events cap keys :=
-  events_sim cap depth hd hd2 _ _ keys (init_sim cap depth hcap hd hd2 cxx prompt)
+  events_sim cap depth hd _ _ keys (init_sim cap depth hcap hd cxx prompt)
 
 /-- ... and between the events the edit buffer and the cursor are the reference
 editor's: after every key sequence the line the next call works on (`nrl`: the
@@ -107,13 +109,13 @@ buffer itself in state 2, the freshly reset buffer while the reset after Enter
 is still pending) holds the reference line with the cursor at the reference
 position, is browsing the same history entry and is in the same place of an
 escape sequence. -/
-theorem vterm_refines_editor (cap depth : Nat) (hcap : 1 ≤ cap) (hd : 1 ≤ depth) (hd2 : depth ≤ 255) (cxx : Bool)
+theorem vterm_refines_editor (cap depth : Nat) (hcap : 1 ≤ cap) (hd : 1 ≤ depth) (cxx : Bool)
     (prompt : List Byte) (keys : List Byte) :
     let v := (Vterm.init cap depth cxx prompt).run keys
     let r := (Ref.init depth).run cap keys
     v.nrl.line.text = r.z.line ∧ v.nrl.line.cursor = r.z.left.length ∧ v.nrl.curhist = r.browse ∧
     v.nrl.state = r.esc := by
-  exact editor_of_sim cap depth _ _ (run_sim cap depth hd hd2 _ _ keys (init_sim cap depth hcap hd hd2 cxx prompt))
+  exact editor_of_sim cap depth _ _ (run_sim cap depth hd _ _ keys (init_sim cap depth hcap hd cxx prompt))
 
 /-- WHAT THE RETURN CODES MEAN.  In every reachable state of the terminal's
 readline (after any key sequence) the code `readline_putchar` answers to the
@@ -123,15 +125,15 @@ cursor was removed; LEFT / RIGHT = the cursor moved; UPDATELINE = another
 history line was loaded (cursor at its end, `lastsize` = the old cursor);
 NOTHING / OVERFLOW = the line is unchanged; NEWLINE = the line is unchanged and
 accepted — and NEWLINE is answered exactly when the reference accepts a line. -/
-theorem readline_codes (cap depth : Nat) (hcap : 1 ≤ cap) (hd : 1 ≤ depth) (hd2 : depth ≤ 255) (cxx : Bool)
+theorem readline_codes (cap depth : Nat) (hcap : 1 ≤ cap) (hd : 1 ≤ depth) (cxx : Bool)
     (prompt : List Byte) (keys : List Byte) (c : Byte) :
     let rl := ((Vterm.init cap depth cxx prompt).run keys).nrl
     let r := (Ref.init depth).run cap keys
     EchoRel c (rl.putchar c).2 (rl.putchar c).1.lastsize r.z (r.rlKey cap c).1.z ∧
     ((rl.putchar c).2 = RL_NEWLINE → (r.rlKey cap c).2 = some r.z.line) ∧
     ((rl.putchar c).2 ≠ RL_NEWLINE → (r.rlKey cap c).2 = none) := by
-  have h := run_sim cap depth hd hd2 _ _ keys (init_sim cap depth hcap hd hd2 cxx prompt)
-  exact (rstep cap depth hd hd2 _ _ c h.sim).2
+  have h := run_sim cap depth hd _ _ keys (init_sim cap depth hcap hd cxx prompt)
+  exact (rstep cap depth hd _ _ c h.sim).2
 
 /-! ### history recall -/
 
@@ -141,7 +143,7 @@ from the one before it), then press Up `k` times, `1 ≤ k ≤ min n depth`: the
 edit buffer holds the `k`-th most recent line with the cursor at its end, the
 terminal is browsing entry `k`.  (All ring indices stay `< depth` and all ring
 writes inside history_space: `vterm_safe`.) -/
-theorem history_recall (cap depth : Nat) (hcap : 1 ≤ cap) (hd : 1 ≤ depth) (hd2 : depth ≤ 255) (cxx : Bool)
+theorem history_recall (cap depth : Nat) (hcap : 1 ≤ cap) (hd : 1 ≤ depth) (cxx : Bool)
     (prompt : List Byte) (ls : List (List Byte)) (k : Nat)
     (hl : ∀ l ∈ ls, l ≠ [] ∧ l.length + 1 ≤ cap ∧ ∀ c ∈ l, plain c) (hdist : ConsecDistinct ls)
     (hk1 : 1 ≤ k) (hk : k ≤ ls.length) (hkd : k ≤ depth) :
@@ -151,7 +153,7 @@ theorem history_recall (cap depth : Nat) (hcap : 1 ≤ cap) (hd : 1 ≤ depth) (
     v.rl.curhist = k := by
   have hr := ref_recall cap depth hd ls k hl hdist hk1 hk hkd
   rw [ups_snoc k hk1, ← List.append_assoc] at hr ⊢
-  obtain ⟨_, t1, t2, t3⟩ := recall_transfer cap depth hd hd2 _ _ (init_sim cap depth hcap hd hd2 cxx prompt) _ 0x41
+  obtain ⟨_, t1, t2, t3⟩ := recall_transfer cap depth hd _ _ (init_sim cap depth hcap hd cxx prompt) _ 0x41
     (by decide) _ hr.1
   exact ⟨t1, t2, by rw [t3, hr.2]⟩
 
@@ -165,40 +167,52 @@ example :
 
 /-! ### the echoed output on a VT100 screen -/
 
+/- The clause as the property states it — "the echoed output drives a VT100
+screen model to show the same line and cursor" for EVERY byte sequence — does
+not hold: a byte a terminal cannot show (TAB, DEL, NUL, ≥ 0x80) is stored and
+echoed as it is (`screen_matches_witness_unprintable`).  `_partial` = with the
+hypothesis that the keys are printable ASCII or one of the control keys the
+automaton handles (every key class the property enumerates), the prompt is
+printable, echo is on (echo off: `echo_off_silent`), and the screen is ONE row
+of unbounded width: no right margin, no auto-wrap (a real 80-column terminal
+does not move up a row on `ESC[nD`; a line crossing the margin is outside this
+model). -/
+
 /-- THE SCREEN SHOWS THE LINE AND THE CURSOR.  Feed every byte the terminal
 passes to the write callback, from the very first call on, to the one-row VT100
 screen model (`Screen`: printable, CR, LF, ESC[nD, ESC[nC, ESC[K; column
 clamped at 0).  For every key sequence made of keys a terminal can show
 (printable ASCII, BS, CR, LF, ESC, Ctrl-C — in any order, so every escape
-sequence, complete or not), every printable prompt, capacity ≥ 1, depth
-1..255, both variants: after every key
+sequence, complete or not), every printable prompt, capacity ≥ 1, every depth
+≥ 1, both variants: after every key (the statement is for every key sequence,
+hence for every prefix of a session)
   * in state 2 (always, for vterm.c, once a key was typed — `screen_matches_c`)
     the row is exactly  prompt ++ line  and the cursor column is
     |prompt| + cursor, the screen's escape parser is in its ground state;
   * while igris::vtermxx still owes the prompt after Enter (state 1) — and
     before the first call (state 0) — the row is blank, cursor in column 0. -/
-theorem screen_matches (cap depth : Nat) (hcap : 1 ≤ cap) (hd : 1 ≤ depth) (hd2 : depth ≤ 255) (cxx : Bool)
+theorem screen_matches_partial (cap depth : Nat) (hcap : 1 ≤ cap) (hd : 1 ≤ depth) (cxx : Bool)
     (prompt : List Byte) (keys : List Byte) (hP : AllP prompt) (hk : ∀ k ∈ keys, screenKey k = true) :
     let v0 := Vterm.init cap depth cxx prompt
     let v := v0.run keys
     let scr := Screen.blank.feed (v0.echoed keys)
     (v.state = 2 → scr = ⟨prompt ++ v.rl.line.text, prompt.length + v.rl.line.cursor, .ground⟩) ∧
     (v.state ≠ 2 → scr = ⟨[], 0, .ground⟩) := by
-  have h0 := init_sim cap depth hcap hd hd2 cxx prompt
-  obtain ⟨s1, s2⟩ := screen_run cap depth hd hd2 (Vterm.init cap depth cxx prompt) (Ref.init depth) Screen.blank keys
+  have h0 := init_sim cap depth hcap hd cxx prompt
+  obtain ⟨s1, s2⟩ := screen_run cap depth hd (Vterm.init cap depth cxx prompt) (Ref.init depth) Screen.blank keys
     h0 (refP_init depth) rfl hP hk (by unfold SInv; rw [if_neg (show ¬ ((Vterm.init cap depth cxx prompt).state = 2) from fun e => by simp [Vterm.init] at e)]; rfl)
   exact screen_of_sim cap depth prompt _ _ _ s2 s1
 
 /-- vterm.c: after every non-empty key sequence the screen shows prompt ++ line
 with the cursor at |prompt| + cursor -/
-theorem screen_matches_c (cap depth : Nat) (hcap : 1 ≤ cap) (hd : 1 ≤ depth) (hd2 : depth ≤ 255)
+theorem screen_matches_c_partial (cap depth : Nat) (hcap : 1 ≤ cap) (hd : 1 ≤ depth)
     (prompt : List Byte) (keys : List Byte) (hP : AllP prompt) (hk : ∀ k ∈ keys, screenKey k = true)
     (hne : keys ≠ []) :
     Screen.blank.feed ((Vterm.init cap depth false prompt).echoed keys) =
       ⟨prompt ++ ((Vterm.init cap depth false prompt).run keys).rl.line.text,
        prompt.length + ((Vterm.init cap depth false prompt).run keys).rl.line.cursor, .ground⟩ :=
-  (screen_matches cap depth hcap hd hd2 false prompt keys hP hk).1
-    (run_state_c cap depth hd hd2 _ _ (init_sim cap depth hcap hd hd2 false prompt) rfl keys hne)
+  (screen_matches_partial cap depth hcap hd false prompt keys hP hk).1
+    (run_state_c cap depth hd _ _ (init_sim cap depth hcap hd false prompt) rfl keys hne)
 
 /-- non-vacuity, and the two defects repaired in fix-C15 as concrete sessions:
 "abc", Left, Left, "x" on a 6-byte line: the row reads "$ axbc", cursor after the x -/
@@ -213,7 +227,7 @@ example : Screen.blank.feed ((Vterm.init 4 2 false).echoed
 stored in the line and echoed, and the screen model ignores it — the row then
 differs from prompt ++ line.  (Recorded as the limit of the screen clause, not
 as a defect: the line handed to execute is still the reference line.) -/
-theorem screen_matches_witness_unprintable :
+theorem screen_matches_witness :
     Screen.blank.feed ((Vterm.init 4 1 false).echoed [0x09]) ≠
       ⟨[0x24, 0x20] ++ ((Vterm.init 4 1 false).run [0x09]).rl.line.text,
        2 + ((Vterm.init 4 1 false).run [0x09]).rl.line.cursor, .ground⟩ := by decide
@@ -226,7 +240,7 @@ equal the reference editor's, memory safety and bounds, and the screen —
 fed the init step's output and then every echoed byte — shows prompt ++ line
 with the cursor at |prompt| + cursor whenever the terminal is in state 2
 (blank row while vtermxx owes the prompt after Enter). -/
-theorem init_step_session (cap depth : Nat) (hcap : 1 ≤ cap) (hd : 1 ≤ depth) (hd2 : depth ≤ 255) (cxx : Bool)
+theorem init_step_session (cap depth : Nat) (hcap : 1 ≤ cap) (hd : 1 ≤ depth) (cxx : Bool)
     (prompt : List Byte) (keys : List Byte) :
     let v0 := (Vterm.init cap depth cxx prompt).initStep.1
     v0.events keys = (Ref.init depth).events cap keys ∧
@@ -238,10 +252,10 @@ theorem init_step_session (cap depth : Nat) (hcap : 1 ≤ cap) (hd : 1 ≤ depth
           ⟨prompt ++ (v0.run keys).rl.line.text, prompt.length + (v0.run keys).rl.line.cursor, .ground⟩) ∧
       ((v0.run keys).state ≠ 2 →
         Screen.blank.feed ((Vterm.init cap depth cxx prompt).initStep.2 ++ v0.echoed keys) = ⟨[], 0, .ground⟩)) := by
-  have h0 := init_sim cap depth hcap hd hd2 cxx prompt
+  have h0 := init_sim cap depth hcap hd cxx prompt
   obtain ⟨i1, i2, i3, i4, _, i6⟩ := initStep_sim cap depth _ _ h0 (by simp [Vterm.init])
-  refine ⟨events_sim cap depth hd hd2 _ _ keys i1, ?_, ?_⟩
-  · have := safe_of_sim cap depth _ _ (run_sim cap depth hd hd2 _ _ keys i1)
+  refine ⟨events_sim cap depth hd _ _ keys i1, ?_, ?_⟩
+  · have := safe_of_sim cap depth _ _ (run_sim cap depth hd _ _ keys i1)
     exact ⟨this.1, this.2.1, this.2.2.1⟩
   · intro hP hk
     have hp0 : (Vterm.init cap depth cxx prompt).initStep.1.prompt = prompt := i4
@@ -252,9 +266,304 @@ theorem init_step_session (cap depth : Nat) (hcap : 1 ≤ cap) (hd : 1 ≤ depth
       unfold SInv
       rw [if_pos i2, hp0]
       exact showing_empty prompt hP
-    obtain ⟨s1, s2⟩ := screen_run cap depth hd hd2 _ _ _ keys i1 (refP_init depth) he0 (by rw [hp0]; exact hP) hk hs0
+    obtain ⟨s1, s2⟩ := screen_run cap depth hd _ _ _ keys i1 (refP_init depth) he0 (by rw [hp0]; exact hP) hk hs0
     rw [hp0] at s1
     rw [hout, Screen.feed_append]
     exact screen_of_sim cap depth prompt _ _ _ s2 s1
+
+/-! ## Extension: accessors outside the first model, echo off, the automata's
+enumerated states, the two implementations as one, history as a list, and an
+independent key grammar -/
+
+/-! ### sline: `sline_newdata` with an `int` length, `igris::sline::clear`, `set_size_and_cursor` -/
+
+/-- Bounds and memory safety for histories that ALSO use `sline_newdata(data, n)`
+with the `int n` exactly as the caller gives it (negative, zero, a prefix of the
+data — after fix 0eeafcf a negative length inserts nothing), `igris::sline::clear`
+and the raw setter `set_size_and_cursor(len, cursor)` inside its contract
+(`cursor ≤ len < cap`): `0 ≤ cursor ≤ len < cap`, no access left the buffer. -/
+theorem sline_inv_ext (cap : Nat) (hcap : 1 ≤ cap) (ops : List SOpX) (hv : ∀ o ∈ ops, o.valid cap) :
+    ((Sline.init cap).runOpsX ops).cursor ≤ ((Sline.init cap).runOpsX ops).len ∧
+    ((Sline.init cap).runOpsX ops).len < cap ∧
+    ((Sline.init cap).runOpsX ops).buf.length = cap ∧
+    ((Sline.init cap).runOpsX ops).fault = false := by
+  obtain ⟨h, hc⟩ := runOpsX_ok (Sline.init cap) (init_ok cap hcap) ops hv
+  have hc' : ((Sline.init cap).runOpsX ops).cap = cap := hc
+  have := h.room
+  exact ⟨h.cur, by omega, by rw [h.blen, hc'], h.nofault⟩
+
+/-- non-vacuity: a negative length, a raw resize that un-deletes a stale byte, clear -/
+example : (Sline.init 4).runOpsX [.base (.putchar 0x61), .newdataI [0x62, 0x63] (-1), .base (.putchar 0x62),
+      .base (.backspace 1), .setsc 2 1, .base .getline] = ⟨[0x61, 0x62, 0, 0], 4, 2, 1, false⟩ ∧
+    ∀ o ∈ [SOpX.base (.putchar 0x61), .newdataI [0x62, 0x63] (-1), .setsc 2 1, .clear], o.valid 4 := by decide
+
+/-- the contract of the raw setter is needed: `set_size_and_cursor(cap, 0)` and
+then `getline` writes `buf[cap]` -/
+theorem set_size_and_cursor_witness : ((Sline.init 2).setSizeCursor 2 0).getline.fault = true := by decide
+
+/-- `sline_newdata(data, n)` for any `int n ≤ |data|`, in any reachable state, IS
+the bulk insert of the first `max n 0` bytes (so `sline_inv`,
+`sline_refines_zipper`, `sline_returns` speak about it) -/
+theorem newdata_int_length (cap : Nat) (hcap : 1 ≤ cap) (ops : List SOp) (d : List Byte) (n : Int)
+    (hn : n ≤ (d.length : Int)) :
+    ((Sline.init cap).runOps ops).newdataI d n =
+      ((((Sline.init cap).runOps ops).apply (.newdata (d.take n.toNat))).1,
+       (((((Sline.init cap).runOps ops).apply (.newdata (d.take n.toNat))).2 : Nat) : Int)) :=
+  newdataI_eq _ (runOps_ok (Sline.init cap) (init_ok cap hcap) ops).1 d n hn
+
+example : ((Sline.init 4).newdataI [0x61, 0x62] (-5)).2 = 0 ∧ ((Sline.init 4).newdataI [0x61, 0x62] 1).1.text = [0x61] := by
+  decide
+
+/-- capacity 0 is outside the contract (finding C15-capacity-zero): already the
+first typed character / the terminator is stored outside the 0-byte buffer -/
+theorem capacity_zero_witness :
+    ((Sline.init 0).putchar 0x61).1.fault = true ∧ (Sline.init 0).getline.fault = true := by decide
+
+/-! ### readline_linecpy -/
+
+/-- `readline_linecpy(rl, line, maxlen)` after ANY key sequence, for a destination
+of at least `maxlen` bytes: it returns `n = min(len, maxlen - 1)`, the
+destination holds the first `n` characters of the line, a terminator at `[n]`,
+and is untouched behind it (so at most `maxlen` bytes are written); no access
+leaves the destination or the edit buffer.  `maxlen = 0` writes nothing and
+returns 0 (fix 4135e3f; before: `memcpy` of SIZE_MAX bytes). -/
+theorem linecpy_bounded (cap depth : Nat) (hcap : 1 ≤ cap) (hd : 1 ≤ depth) (cxx : Bool) (prompt : List Byte)
+    (keys : List Byte) (dst : List Byte) (maxlen : Nat) (hm : maxlen ≤ dst.length) :
+    let rl := ((Vterm.init cap depth cxx prompt).run keys).rl
+    let n := min rl.line.len (maxlen - 1)
+    (1 ≤ maxlen → rl.linecpy dst maxlen = (rl.line.text.take n ++ [0] ++ dst.drop (n + 1), (n : Int), false) ∧
+      (rl.line.text.take n ++ [0] ++ dst.drop (n + 1)).length = dst.length) ∧
+    (maxlen = 0 → rl.linecpy dst maxlen = (dst, 0, false)) := by
+  intro rl n
+  have hs := run_sim cap depth hd _ _ keys (init_sim cap depth hcap hd cxx prompt)
+  have hL : SlineOK rl.line := hs.rawOK
+  constructor
+  · intro h1
+    refine ⟨linecpy_ok rl hL dst maxlen h1 hm, ?_⟩
+    have hl : rl.line.text.length = rl.line.len := text_length _ hL
+    simp only [List.length_append, List.length_take, List.length_drop, List.length_singleton, hl]
+    omega
+  · intro h0
+    subst h0
+    rfl
+
+example : (((Vterm.init 8 1 false).run [0x61, 0x62, 0x63]).rl.linecpy [9, 9, 9, 9] 3) = ([0x61, 0x62, 0, 9], 2, false) := by
+  decide
+
+/-! ### the `default:` branches of the automata are dead -/
+
+/-- Between calls the terminal automaton is in one of its enumerated states
+0, 1, 2 — for EVERY capacity, depth, variant, prompt, key sequence (no
+hypothesis at all): the outer `default:` branch (`state = 0; return`,
+vterm.c 223–227, vtermxx.cpp 202–206; `key_default_branch`) is never taken.
+The readline's escape state is an enumeration in the model (`RState`): every
+assignment to `state` in readline.h / readlinexx.h stores one of the four
+constants, so its `default:` (readline.h 297–301, readlinexx.h 310–314) is
+dead by construction; the harness checks `state ∈ {0..3}` and `= ` the
+reference decoder's after every key. -/
+theorem automaton_states_enumerated (cap depth : Nat) (cxx : Bool) (prompt : List Byte) (keys : List Byte) :
+    let v := (Vterm.init cap depth cxx prompt).run keys
+    (v.state = 0 ∨ v.state = 1 ∨ v.state = 2) ∧
+    ∀ c, v.key c ≠ ({ v with state := 0 }, [], []) ∨ v.state = 0 := by
+  intro v
+  have h := run_st012 (Vterm.init cap depth cxx prompt) keys (Or.inl rfl)
+  refine ⟨h, fun c => ?_⟩
+  by_cases h0 : v.state = 0
+  · exact Or.inr h0
+  · left
+    intro e
+    have := key_st012 v c h
+    rw [e] at this
+    simp at this
+
+/-! ### echo off -/
+
+/-- ECHO OFF.  With `echo = 0` the write callback is never used — not for the
+prompt, not for CR LF, not for `^C` — and everything else is as with echo on:
+the same callback events (hence, by `readline_line`, the reference editor's
+lines), the same line, cursor, history and automaton state after every key.
+Every capacity, depth, variant, prompt, byte sequence; no hypothesis. -/
+theorem echo_off_silent (cap depth : Nat) (cxx : Bool) (prompt : List Byte) (keys : List Byte) :
+    let on := Vterm.init cap depth cxx prompt
+    let off : Vterm := { on with echo := false }
+    off.echoed keys = [] ∧ off.events keys = on.events keys ∧ off.run keys = { on.run keys with echo := false } :=
+  run_echo_off (Vterm.init cap depth cxx prompt) keys (Or.inl rfl)
+
+/-- … so with echo off the executed lines are the reference editor's -/
+theorem echo_off_lines (cap depth : Nat) (hcap : 1 ≤ cap) (hd : 1 ≤ depth) (cxx : Bool) (prompt : List Byte)
+    (keys : List Byte) :
+    ({ Vterm.init cap depth cxx prompt with echo := false } : Vterm).events keys = (Ref.init depth).events cap keys := by
+  rw [(echo_off_silent cap depth cxx prompt keys).2.1]
+  exact readline_line cap depth hcap hd cxx prompt keys
+
+example : ({ Vterm.init 4 1 false with echo := false } : Vterm).events [0x61, ETX, 0x62, CR] = [.sigint, .exec [0x62]] ∧
+    ({ Vterm.init 4 1 false with echo := false } : Vterm).echoed [0x61, ETX, 0x62, CR] = [] := by decide
+
+/-! ### vterm.c and igris::vtermxx are one editor -/
+
+/-- THE C AND THE C++ TERMINAL ARE OBSERVATIONALLY EQUAL.  After the same keys
+(every capacity, depth, prompt, byte sequence — no hypothesis, the proof is a
+simulation between the two models): the callbacks saw the same events; the
+readline object the next call starts from (`nrl`: line, cursor, escape state,
+`last`, the whole history ring and its indices) is the same; echo / prompt are
+the same; and the bytes written are the same up to the prompt igris::vtermxx
+still owes after Enter (`owed`: it prints it at the start of the next call,
+vterm.c at the end of this one).  So every theorem above about one variant is
+a theorem about the other. -/
+theorem twins_observationally_equal (cap depth : Nat) (prompt : List Byte) (keys : List Byte) :
+    let c := Vterm.init cap depth false prompt
+    let x := Vterm.init cap depth true prompt
+    c.events keys = x.events keys ∧ (c.run keys).nrl = (x.run keys).nrl ∧
+    c.echoed keys ++ (c.run keys).owed = x.echoed keys ++ (x.run keys).owed := by
+  intro c x
+  obtain ⟨t1, t2, t3⟩ := twin_run c x keys (twin_init cap depth prompt)
+  refine ⟨t2, t1.nrl, ?_⟩
+  have := t3 [] [] rfl
+  simpa using this
+
+/-- non-vacuity: "a", Enter — vterm.c has printed the next prompt, vtermxx owes it -/
+example : (Vterm.init 4 1 false).echoed [0x61, CR] = (Vterm.init 4 1 true).echoed [0x61, CR] ++ [0x24, 0x20] ∧
+    ((Vterm.init 4 1 true).run [0x61, CR]).owed = [0x24, 0x20] ∧ ((Vterm.init 4 1 false).run [0x61, CR]).owed = [] := by
+  decide
+
+/-! ### the history ring is the reference's list of lines -/
+
+/-- THE RING IS THE LIST.  After every key sequence the C string in the slot
+`readline_history_pointer(rl, k)` points at (`histLine k`: slot
+`(headhist + depth − k) mod depth`, up to its NUL) is the `k`-th most recent
+remembered line of the reference editor, for every `1 ≤ k ≤ depth` — whatever
+was typed, however often the ring wrapped. -/
+theorem history_is_reference (cap depth : Nat) (hcap : 1 ≤ cap) (hd : 1 ≤ depth) (cxx : Bool) (prompt : List Byte)
+    (keys : List Byte) (k : Nat) (hk1 : 1 ≤ k) (hk : k ≤ depth) :
+    ((Vterm.init cap depth cxx prompt).run keys).rl.histLine k = ((Ref.init depth).run cap keys).hist.getD (k - 1) [] := by
+  have hs := run_sim cap depth hd _ _ keys (init_sim cap depth hcap hd cxx prompt)
+  have e : ∀ v : Vterm, v.nrl.histLine k = v.rl.histLine k := by
+    intro v; unfold Vterm.nrl; split <;> rfl
+  rw [← e]
+  exact histLine_of_ok cap depth _ _ hs.sim.histOK hs.sim.lcap k hk1 hk
+
+/-- EDITING A RECALLED LINE DOES NOT ALTER THE HISTORY.  Whatever is typed after
+`keys` — recalls, edits of the recalled line, cursor moves, escapes, Ctrl-C —
+as long as no line is handed to execute, every stored line stays what it was. -/
+theorem history_unchanged_by_editing (cap depth : Nat) (hcap : 1 ≤ cap) (hd : 1 ≤ depth) (cxx : Bool)
+    (prompt : List Byte) (keys edits : List Byte)
+    (hne : ∀ e ∈ ((Vterm.init cap depth cxx prompt).run keys).events edits, e = Ev.sigint)
+    (k : Nat) (hk1 : 1 ≤ k) (hk : k ≤ depth) :
+    ((Vterm.init cap depth cxx prompt).run (keys ++ edits)).rl.histLine k =
+      ((Vterm.init cap depth cxx prompt).run keys).rl.histLine k := by
+  rw [history_is_reference cap depth hcap hd cxx prompt _ k hk1 hk,
+    history_is_reference cap depth hcap hd cxx prompt _ k hk1 hk, Ref.run_append]
+  have hs := run_sim cap depth hd _ _ keys (init_sim cap depth hcap hd cxx prompt)
+  rw [events_sim cap depth hd _ _ edits hs] at hne
+  rw [run_hist_same cap _ edits hne]
+
+/-- non-vacuity: "ab" Enter, Up, Backspace, "x", Ctrl-C: the stored line is still "ab" -/
+example : ((Vterm.init 4 2 false).run ([0x61, 0x62, CR] ++ [ESC, 0x5b, 0x41, BS, 0x78, ETX])).rl.histLine 1 = [0x61, 0x62] ∧
+    ∀ e ∈ ((Vterm.init 4 2 false).run [0x61, 0x62, CR]).events [ESC, 0x5b, 0x41, BS, 0x78, ETX], e = Ev.sigint := by
+  decide
+
+/-- UP BEYOND THE OLDEST, DOWN BEYOND THE NEWEST ARE NO-OPS.  In any reachable
+state (after any keys) in which the terminal waits for a key outside an escape
+sequence: when the oldest entry is shown (`curhist = depth`) the Up key, and
+when a new line is edited (`curhist = 0`) the Down key, write nothing, call
+nothing, and leave line, cursor, browse position and history as they are. -/
+theorem history_ends_noop (cap depth : Nat) (hcap : 1 ≤ cap) (hd : 1 ≤ depth) (cxx : Bool) (prompt : List Byte)
+    (keys : List Byte) :
+    let v := (Vterm.init cap depth cxx prompt).run keys
+    v.state = 2 → v.rl.state = .normal →
+    (v.rl.curhist = depth → v.echoed UP = [] ∧ v.events UP = [] ∧ (v.run UP).rl.line = v.rl.line ∧
+      (v.run UP).rl.curhist = depth ∧ (v.run UP).rl.hist = v.rl.hist ∧ (v.run UP).rl.headhist = v.rl.headhist) ∧
+    (v.rl.curhist = 0 → v.echoed DOWN = [] ∧ v.events DOWN = [] ∧ (v.run DOWN).rl.line = v.rl.line ∧
+      (v.run DOWN).rl.curhist = 0 ∧ (v.run DOWN).rl.hist = v.rl.hist ∧ (v.run DOWN).rl.headhist = v.rl.headhist) := by
+  intro v h2 hn
+  have hs := run_sim cap depth hd _ _ keys (init_sim cap depth hcap hd cxx prompt)
+  have hH := hs.sim.histOK
+  rw [nrl_two _ h2] at hH
+  constructor
+  · intro hc
+    obtain ⟨a, b, c⟩ := up_at_oldest v h2 hn hH.hasHist (by rw [hc, hH.hsize])
+    rw [c]
+    exact ⟨a, b, rfl, hc, rfl, rfl⟩
+  · intro hc
+    obtain ⟨a, b, c⟩ := down_at_newest v h2 hn hc
+    rw [c]
+    exact ⟨a, b, rfl, hc, rfl, rfl⟩
+
+/-- non-vacuity: depth 1, one line, Up (oldest shown), Up again; and Down on a fresh line -/
+example : ((Vterm.init 4 1 false).run [0x61, CR, ESC, 0x5b, 0x41]).rl.curhist = 1 ∧
+    ((Vterm.init 4 1 false).run [0x61, CR, ESC, 0x5b, 0x41]).state = 2 ∧
+    ((Vterm.init 4 1 false).run [0x61, CR, ESC, 0x5b, 0x41]).echoed UP = [] ∧
+    ((Vterm.init 4 1 false).run [0x61, CR]).echoed DOWN = [] := by decide
+
+/-- RECALL IN BOTH DIRECTIONS.  `n` accepted lines, `k` × Up, then `j` × Down with
+`1 ≤ j < k ≤ min n depth`: the buffer holds the `(k − j)`-th most recent line,
+cursor at its end, the terminal browses entry `k − j`. -/
+theorem history_recall_down (cap depth : Nat) (hcap : 1 ≤ cap) (hd : 1 ≤ depth) (cxx : Bool)
+    (prompt : List Byte) (ls : List (List Byte)) (k j : Nat)
+    (hl : ∀ l ∈ ls, l ≠ [] ∧ l.length + 1 ≤ cap ∧ ∀ c ∈ l, plain c) (hdist : ConsecDistinct ls)
+    (hk : k ≤ ls.length) (hkd : k ≤ depth) (hj1 : 1 ≤ j) (hj : j < k) :
+    let v := (Vterm.init cap depth cxx prompt).run
+      (ls.flatMap (· ++ [CR]) ++ (List.replicate k UP).flatten ++ (List.replicate j DOWN).flatten)
+    v.rl.line.text = ls.reverse.getD (k - j - 1) [] ∧
+    v.rl.line.cursor = (ls.reverse.getD (k - j - 1) []).length ∧
+    v.rl.curhist = k - j := by
+  have hr := ref_recall_down cap depth hd ls k j hl hdist hk hkd hj1 hj
+  rw [downs_snoc j hj1, ← List.append_assoc] at hr ⊢
+  obtain ⟨_, t1, t2, t3⟩ := recall_transfer cap depth hd _ _ (init_sim cap depth hcap hd cxx prompt) _ 0x42
+    (by decide) _ hr.1
+  exact ⟨t1, t2, by rw [t3, hr.2]⟩
+
+example :
+    ((Vterm.init 4 3 false).run
+      ([[0x61], [0x62, 0x63], [0x64]].flatMap (· ++ [CR]) ++ (List.replicate 3 UP).flatten ++
+        (List.replicate 1 DOWN).flatten)).rl.line.text = [0x62, 0x63] := by decide
+
+/-! ### an independent key grammar (Keys.lean) -/
+
+/-- THE BYTE-LEVEL REFERENCE IS THE KEY-PRESS EDITOR.  `Ref` decodes bytes with a
+four-state automaton shaped like the code's; `keyPresses` (Keys.lean) cuts the
+same bytes into key presses by a two-level grammar without any decoder state
+(Enter = CR | LF | CR LF | LF CR, Ctrl-C transparent for the pairing;
+`ESC [ A/B/C/D`, `ESC [ 3 x`, unknown `ESC x` / `ESC [ x` ignored, Ctrl-C aborts
+a sequence), and `Ed` is an editor over key presses (zipper, list of lines,
+browse position — nothing else).  For EVERY byte sequence, capacity and depth
+the two agree on the callback events and on line, cursor, history and browse
+position. -/
+theorem reference_is_key_editor (cap depth : Nat) (keys : List Byte) :
+    (Ref.init depth).events cap keys = (Ed.init depth).events cap (keyPresses keys) ∧
+    edOf ((Ref.init depth).run cap keys) = (Ed.init depth).run cap (keyPresses keys) := by
+  obtain ⟨a, b⟩ := tok_run cap (Ref.init depth) keys (dec_init depth)
+  exact ⟨b, a⟩
+
+/-- THE LINES HANDED TO EXECUTE, AGAINST THE KEY GRAMMAR: the terminal's callback
+events for any byte sequence are those of the key-press editor run on the key
+presses the bytes consist of; and between events its line, cursor and browse
+position are the key-press editor's. -/
+theorem readline_line_keys (cap depth : Nat) (hcap : 1 ≤ cap) (hd : 1 ≤ depth) (cxx : Bool)
+    (prompt : List Byte) (keys : List Byte) :
+    let v := (Vterm.init cap depth cxx prompt).run keys
+    let e := (Ed.init depth).run cap (keyPresses keys)
+    (Vterm.init cap depth cxx prompt).events keys = (Ed.init depth).events cap (keyPresses keys) ∧
+    v.nrl.line.text = e.z.line ∧ v.nrl.line.cursor = e.z.left.length ∧ v.nrl.curhist = e.browse := by
+  intro v e
+  obtain ⟨a, b⟩ := reference_is_key_editor cap depth keys
+  obtain ⟨r1, r2, r3, _⟩ := vterm_refines_editor cap depth hcap hd cxx prompt keys
+  have hb : e = edOf ((Ref.init depth).run cap keys) := b.symm
+  refine ⟨by rw [readline_line cap depth hcap hd cxx prompt keys, a], ?_, ?_, ?_⟩
+  · rw [hb]; exact r1
+  · rw [hb]; exact r2
+  · rw [hb]; exact r3
+
+/-- what the grammar says about the corner cases: CR LF CR LF is two Enters; a
+Ctrl-C between the halves of a CR LF does not make a second Enter; ESC followed
+by Enter (sent as CR LF) is an unknown escape sequence and is ignored as a
+whole; Delete acts at `ESC [ 3` and consumes the next byte; a Ctrl-C inside an
+escape sequence aborts it; a broken sequence followed by a valid one -/
+example : keyPresses [CR, LF, CR, LF] = [.enter, .enter] ∧
+    keyPresses [CR, ETX, LF] = [.enter, .interrupt] ∧
+    keyPresses [ESC, CR, LF, 0x61] = [.char 0x61] ∧
+    keyPresses [ESC, 0x5b, 0x33, 0x7e, 0x61] = [.delete, .char 0x61] ∧
+    keyPresses [ESC, ETX, 0x5b, 0x41] = [.interrupt, .char 0x5b, .char 0x41] ∧
+    keyPresses [ESC, 0x5b, 0x5a, ESC, 0x5b, 0x44] = [.left] := by decide
 
 end Igris.C15
